@@ -93,6 +93,16 @@ func genUpdate(repo string) *genFile {
 	}
 	g.pf("/-- update.go: lexicographic comparison keys of the two sort orders -/\n")
 	g.pf("def sortIndexKeys : List String := %s\n", leanStrList(keys("updatesSortIndex")))
+	// which sort SortByIndex calls
+	{
+		var out []string
+		if fd := p.funcDecl("Updates", "SortByIndex"); fd != nil {
+			p.flat(fd.Body, &out)
+		} else {
+			g.fail("Updates.SortByIndex not found")
+		}
+		g.pf("def sortByIndexBody : List String := %s\n", leanStrList(out))
+	}
 	g.pf("def sortTimestampKeys : List String := %s\n", leanStrList(keys("updatesSortTS")))
 	return g
 }
